@@ -704,6 +704,11 @@ class APTMirror:
                                 self._config.encode_tilde
                             )
                         )
+                        # A repository that failed before its cleanup step has no
+                        # clean script: do not let `set -e` abort the other ones
+                        if not clean_script.exists():
+                            continue
+
                         fp.write(f"sh '{clean_script}'\n")
 
                 self._config.cleanscript.chmod(0o750)
